@@ -17,6 +17,7 @@ import (
 	"github.com/pion/dtls/v3"
 	"github.com/pion/ice/v4/internal/fakenet"
 	stunx "github.com/pion/ice/v4/internal/stun"
+	"github.com/pion/ice/v4/internal/verifhook"
 	"github.com/pion/logging"
 	"github.com/pion/stun/v3"
 	"github.com/pion/transport/v4/stdnet"
@@ -362,7 +363,7 @@ func (a *Agent) gatherCandidatesLocal(ctx context.Context, networkTypes []Networ
 				isLocationTracked = shouldFilterLocationTrackedIP(mappedIP)
 			}
 
-			for network := range networks {
+			for _, network := range verifhook.Keys("gather.local.networks", networks) {
 				type connAndPort struct {
 					conn net.PacketConn
 					port int
